@@ -1275,6 +1275,41 @@ class Check:
         self.out.extra["self_service"] = res
 
 
+def leaderless_node_part(out, wd, registered):
+    """a node that cannot reach a raft leader (not initialised, no join address): its session lookups fail. Every API route must
+    still be refused without a session and with a garbage token - a lookup error is not a login."""
+    import procrig
+    node = procrig.Node(wd, 9, auto_init=False, name="leaderless")
+    n = 0
+    try:
+        node.start()
+        time.sleep(1.0)
+        probes = [(p, m) for (p, m) in registered if is_api(p) and m in ("GET", "POST")]
+        probes = [x for x in probes if not any(k in x[0] for k in ("login", "captcha", "oauth2"))][:60]
+        hits = []
+        for (p, m) in probes:
+            for label, tok in (("no-session", None), ("garbage-token", "c17" + "f" * 61)):
+                try:
+                    r = node.console(m, p, token=tok, form={} if m == "POST" else None, timeout=8)
+                except OSError:
+                    continue
+                n += 1
+                body = r.text()[:200]
+                refused = r.status in (401, 403) or "NO_LOGIN" in body or "NO_PERMISSION" in body or r.status in (301, 302, 307)
+                if not refused and r.status not in (404, 405):
+                    hits.append({"route": "%s %s" % (m, p), "session": label, "status": r.status, "body": body})
+        if hits:
+            out.violation("leaderless-node/api-served-without-valid-session/%s" % hits[0]["session"], {"first": hits[0], "n_hits": len(hits), "routes": sorted({h["route"] for h in hits})[:20]})
+        elif n:
+            out.shape("leaderless-node/refused")
+        out.extra["leaderless_node_probes"] = n
+    except common.Inconclusive as e:
+        out.extra["leaderless_node_probes"] = "inconclusive: %s" % str(e)[:200]
+    finally:
+        node.kill()
+    return n
+
+
 def run(tier, seed):
     common.build(need_bin=True)
     wd = common.workdir("c17")
@@ -1305,7 +1340,8 @@ def run(tier, seed):
                 raise
             out.extra["incomplete"] = str(e)[:500]
             common.log("C17: later phase not completed: %s" % str(e)[:300])
-        rq = chk.rig.requests + chk.rigb.requests
+        leaderless_requests = leaderless_node_part(out, wd, getattr(chk, "registered", None) or [])
+        rq = chk.rig.requests + chk.rigb.requests + leaderless_requests
         out.evaluations = rq + chk.func_evals
         out.extra["requests"] = rq
         out.extra["function_evaluations"] = chk.func_evals
